@@ -29,6 +29,7 @@ func init() {
 	verifRegister("verifC08CloseVsGather", verifC08CloseVsGather)
 	verifRegister("verifC08CloseInCallback", verifC08CloseInCallback)
 	verifRegister("verifC08CloseConcurrent", verifC08CloseConcurrent)
+	verifRegister("verifC08CloseInBindingHandler", verifC08CloseInBindingHandler)
 }
 
 const (
@@ -536,5 +537,42 @@ func verifC08CloseConcurrent() {
 	verifReach("closed")
 	wg.Wait()
 	w.after()
+	verifReach("done")
+}
+
+// Close from inside the application's binding-request handler — a callback the
+// agent runs on its task loop. The property lets Close be called from inside a
+// callback; here it can never return: Close waits for the loop to finish the
+// very task that is executing it (listed known finding).
+func verifC08CloseInBindingHandler() {
+	w := verifC08New(false)
+	a := w.a
+	sock := w.addLocal(1000, false)
+	w.addRemote()
+	closedInside := false
+	a.userBindingRequestHandler = func(*stun.Message, Candidate, Candidate, *CandidatePair) bool {
+		verifReach("handler-invoked")
+		if verifSymbolic() { // natively this would hang the test process: engine only
+			verifKnownDeadlock("C08-close-inside-binding-request-handler")
+			verifAssert(a.Close() == nil, "Close-inside-the-binding-request-handler-returns-nil")
+			closedInside = true
+		}
+		return false
+	}
+	m, err := stun.Build(stun.BindingRequest, stun.TransactionID,
+		stun.NewUsername(verifC08Ufrag+":"+verifC08RU), stun.NewShortTermIntegrity(verifC08Pwd), stun.Fingerprint)
+	if err != nil {
+		panic("verif: build: " + err.Error())
+	}
+	sock.inbox <- verifC08Datagram{m.Raw, &net.UDPAddr{IP: net.ParseIP("20.0.0.1"), Port: 2000}}
+	_, err = a.StartAccept(verifC08RU, verifC08RP)
+	verifAssert(err == nil, "StartAccept")
+	verifLetOthersRun()
+	if closedInside {
+		verifReach("closed-inside-the-handler")
+		w.after()
+	} else {
+		verifAssert(a.Close() == nil, "Close-returns-nil")
+	}
 	verifReach("done")
 }
